@@ -1393,7 +1393,7 @@ static int dd_source_name(struct demangle_data *dd)
 	if (num < 0)
 		return -1;
 
-	if (dd_eof(dd) || dd->pos + num > dd->len)
+	if (dd_eof(dd) || num > dd->len - dd->pos)
 		DD_DEBUG(dd, "shorter name", 0);
 
 	dd_add_debug(dd);
@@ -1529,7 +1529,7 @@ static int dd_unqualified_name(struct demangle_data *dd)
 				return 0;
 
 			dd_append_separator(dd, "::");
-			snprintf(buf, sizeof(buf), "$_%d", n + 1);
+			snprintf(buf, sizeof(buf), "$_%u", (unsigned)n + 1);
 			dd_append(dd, buf);
 		}
 		else {
